@@ -1,5 +1,6 @@
 import SeliumModel.Server.Registry
 import Driver.Util
+import Driver.Wire
 
 namespace Driver.Registry
 open Selium Selium.Server
@@ -31,6 +32,18 @@ def roleOf (k : String) : Option Role :=
 def answerText : Answer → String
   | .ok => "Ok" | .error c => s!"Error{c}" | .closed => "closed"
 
+/-- a refusal is final: nothing is enqueued, the handler returns and the stream is dropped -/
+def answerThen (h : Handled) : String :=
+  match h.answer with
+  | .error _ => answerText h.answer ++ (if h.enqueued.isNone then " then=closed" else " then=open")
+  | _ => answerText h.answer
+
+/-- `Frame::get_length` of a `Message` frame with the given headers and a payload of `n` bytes -/
+def msgLen (headers : List (Bytes × Bytes)) (n : Nat) : Nat :=
+  match Selium.Wire.getLength (Driver.Wire.msgFrame headers (List.replicate n 120)) with
+  | .ok l => l
+  | _ => 0
+
 structure St where
   reg : Registry := []
   fresh : Nat := 0
@@ -51,7 +64,26 @@ def run (st : St) (t : List String) : String × St :=
       | _ => .other
     let h := handleStream st.reg (some first)
     -- whatever was answered, well-behaved clients are still served (c11_registry_isolation, c11_*_total)
-    (answerText h.answer ++ " probe=ok", { st with reg := h.registry, fresh := st.fresh + 1 })
+    (answerThen h ++ " probe=ok", { st with reg := h.registry, fresh := st.fresh + 1 })
+  | ["big", "RP", l] =>
+    match l.toNat? with
+    | some l =>
+      -- the raw peer's encoder refuses beyond the limit; up to it the frame is decoded, fanned out and re-encoded
+      let big := l - 9
+      if msgLen [] big ≤ Selium.Gen.Frame.maxMessageSize then (s!"Ok sent got={big},5 probe=ok", { st with fresh := st.fresh + 1 })
+      else ("Ok refused got=5 probe=ok", { st with fresh := st.fresh + 1 })
+    | none => ("bad-op", st)
+  | ["big", "RQ", l] =>
+    match l.toNat? with
+    | some l =>
+      let big := l - 9
+      if msgLen [] big > Selium.Gen.Frame.maxMessageSize then ("Ok refused reply=no after=len5 probe=ok", { st with fresh := st.fresh + 1 })
+      -- the router tags the request with the requestor's id (the first requestor of a fresh topic: "0"); if it
+      -- no longer fits, the replier's encoder refuses it and only that request is dropped
+      else if msgLen [("cid".toUTF8.toList, "0".toUTF8.toList)] big ≤ Selium.Gen.Frame.maxMessageSize then
+        (s!"Ok sent reply=len{big} after=len5 probe=ok", { st with fresh := st.fresh + 1 })
+      else ("Ok sent reply=no after=len5 probe=ok", { st with fresh := st.fresh + 1 })
+    | none => ("bad-op", st)
   | ["mismatch", a, b] =>
     match roleOf a, roleOf b with
     | some ra, some rb =>
